@@ -1,5 +1,145 @@
-(** C15 (placeholder, replaced below) *)
-From Gnmi Require Import Base.Prelude Latency.LatencyModel.
-Theorem C15_lat_new_empty : forall sizes p, l_count (lat_new sizes p) = 0%Z.
-Proof. reflexivity. Qed.
-Print Assumptions C15_lat_new_empty.
+(** C15: per-target metadata counters and latency statistics are truthful.
+
+    Counter laws over CacheModel.v ([D t t' k] = movement of counter [k], read
+    with "unset = 0"), latency bounds over LatencyModel.v (unbounded Z), and the
+    lockset annotation of the fields shared with the periodic refresh. *)
+From Gnmi Require Import Base.Prelude CTree.CTreeModel Path.PathModel Cache.CacheModel
+  Cache.MultiCache Cache.C14Proofs Cache.C14Check Cache.C15Check Cache.C15Proofs Latency.LatencyModel Latency.LatencyProofs.
+Local Open Scope Z_scope.
+
+(** update_accounting.  Reading fixed in DESIGN section 6: the law is per
+    ingest unit -- a single update, each update and each delete of a multi
+    notification, or one atomic group, which weighs its number of updates in
+    [updated] but 1 in stale / future.  [law t t' u w errs]: there are a, s >= 0
+    with updated moved by w*a, suppressed by s, stale / future by the number of
+    stale / future errors returned, empty by 0, and
+    a + s + #stale + #future + #other errors = u.
+    Hypothesis [no_counter_reset]: no delete of the notification is addressed
+    to the metadata leaf of one of the counters themselves (gnmiRemove resets
+    the counter a delete of [meta/<counter>] names). *)
+Theorem C15_update_accounting : forall t now n t' fd r,
+  target_gnmi_update t now n = (t', fd, r) -> (forall w, r <> GPanic w) ->
+  Forall (no_counter_reset (n_prefix n)) (n_del n) ->
+  match units n with
+  | None => forall k, In k counters -> D t t' k = 0
+  | Some (u, w) =>
+      if Z.eqb u 0
+      then D t t' md_empty_count = 1 /\
+           forall k, In k counters -> k <> md_empty_count -> D t t' k = 0
+      else law t t' u w (errs_of r)
+  end.
+Proof. exact update_accounting. Qed.
+Print Assumptions C15_update_accounting.
+
+(** one unit inside gnmiUpdate: exactly the counter of its fate moves, and the
+    leaf counters move (together) only when a new non-metadata leaf is created *)
+Theorem C15_unit_accounting : forall t now n t' r,
+  gnmi_update1 t now n = (t', r) ->
+  exists real_new, unit_moves (t_meta t) (t_meta t') real_new (fate_of r).
+Proof. exact gnmi_update1_moves. Qed.
+Print Assumptions C15_unit_accounting.
+
+(** leafcount_add_minus_del: across every notification the leaf count moves
+    by (added - deleted) *)
+Theorem C15_leafcount_add_minus_del : forall t now n t' fd r,
+  target_gnmi_update t now n = (t', fd, r) -> (forall w, r <> GPanic w) ->
+  Forall (no_counter_reset (n_prefix n)) (n_del n) ->
+  D t t' md_leaf_count = D t t' md_add_count - D t t' md_del_count.
+Proof. exact leafcount_add_minus_del_step. Qed.
+Print Assumptions C15_leafcount_add_minus_del.
+
+(** leafcount_is_tree.
+    FULL STATEMENT (not finished): for every reachable target,
+      gi (t_meta t) md_leaf_count = real_leaves t
+    (number of leaves stored outside "meta").  It was false before ccc875e
+    (DESIGN 7.11, found by this check: ConnectError; Connect gave -1).
+    Proved: every movement of the count is right -- gnmiRemove subtracts
+    exactly the removed leaves not under "meta" ([counted]), gnmiUpdate adds 1
+    exactly when it creates a leaf outside "meta" ([C15_unit_accounting]'s
+    [real_new]); missing: the counting argument over [walk] that turns the two
+    into the equation.  K_P checks the equation on every observation. *)
+Theorem C15_leafcount_is_tree_partial : forall t n d ds t' r,
+  n_del n = d :: ds -> no_counter_reset (n_prefix n) d ->
+  gnmi_remove t n = (t', r) -> (forall w, r <> Panic w) ->
+  exists removed, r = Ok removed /\
+    forall k', In k' counters ->
+      gi (t_meta t') k' = gi (t_meta t) k' +
+        (if String.eqb k' md_leaf_count then - counted removed
+         else if String.eqb k' md_del_count then counted removed else 0).
+Proof. exact gnmi_remove_moves. Qed.
+Print Assumptions C15_leafcount_is_tree_partial.
+
+(** latest_is_max: the latest timestamp never decreases, and moves only to the
+    timestamp of a notification whose first update is tracked ([tracks_ts]: the
+    index path -- prefix + first update path, the prefix alone when atomic -- is
+    not under "meta"; since a096aa9, the fix of DESIGN 7.12 found by this check) *)
+Theorem C15_latest_step : forall t now n t' fd r,
+  target_gnmi_update t now n = (t', fd, r) ->
+  (t_ts t' = t_ts t \/
+   (tracks_ts n = true /\ t_ts t' = Some (n_ts n) /\ forall z, t_ts t = Some z -> z < n_ts n)) /\
+  ts_le (t_ts t) (t_ts t').
+Proof. exact latest_step. Qed.
+Print Assumptions C15_latest_step.
+
+(** ... an accepted tracked update brings it to at least its own timestamp, a
+    rejected one leaves it alone *)
+Theorem C15_latest_single : forall t now n u t' fd r,
+  n_atomic n = false -> n_upd n = [u] -> n_del n = [] ->
+  target_gnmi_update t now n = (t', fd, r) ->
+  match r with
+  | GOk => tracks_ts n = true -> ts_le (Some (n_ts n)) (t_ts t')
+  | _ => t_ts t' = t_ts t
+  end.
+Proof. exact latest_single. Qed.
+Print Assumptions C15_latest_single.
+
+(** latency_bounds: after any history of Compute / UpdateReset / UpdateLast
+    with non-decreasing update times on a fresh Latency, whatever the next
+    update writes for a window: max and min are samples of the retained slots,
+    the average lies strictly within (min S - p, max S + p) for the scaling
+    factor p (the precision), nothing is written from an empty sample set, and
+    the retained slots are exactly those closed after [t - window] *)
+Theorem C15_latency_bounds : forall sizes p ops t ignore,
+  0 <= p -> mono_from 0 ops -> last_update 0 ops <= t ->
+  let l := lrun (lat_new sizes p) ops in
+  Forall2 (fun w' o => forall st, o = Some st ->
+             stats_bounded w' st /\
+             Forall (fun s => t - w_size w' < sl_end s) (w_slots w'))
+          (l_windows (fst (lat_update l t ignore))) (snd (lat_update l t ignore)).
+Proof. exact latency_bounds. Qed.
+Print Assumptions C15_latency_bounds.
+
+Theorem C15_latency_avg_arith : forall sf S lo hi,
+  1 <= sf -> S <> [] -> (forall d, In d S -> lo <= d <= hi) ->
+  lo - sf < Z.quot (sumq sf S) (Z.of_nat (List.length S)) * sf < hi + sf.
+Proof. exact avg_bounds. Qed.
+Print Assumptions C15_latency_avg_arith.
+
+(** "without unsynchronised access": over the lockset annotation of the access
+    sites ([C15Proofs.accesses]) the metadata values, the latency accumulators
+    and the tree are protected ... *)
+Theorem C15_no_unprotected_access_meta_lat_tree :
+  no_unprotected_access FMeta = true /\ no_unprotected_access FLat = true /\
+  no_unprotected_access FTree = true.
+Proof. exact lockset_meta_lat_tree. Qed.
+Print Assumptions C15_no_unprotected_access_meta_lat_tree.
+
+(** ... and Target.sync / Target.ts are not (known finding KF-C15-4) *)
+Theorem C15_no_unprotected_access_refuted :
+  no_unprotected_access FSync = false /\ no_unprotected_access FTs = false.
+Proof. exact lockset_sync_ts_refuted. Qed.
+Print Assumptions C15_no_unprotected_access_refuted.
+
+(** soundness of the executable specification used on the implementation's
+    exported statistics (tag 6) *)
+Theorem C15_K_latency_sound : forall S p st,
+  p <> 0 -> kp_window S p (Some st) = true ->
+  match zmin_list S, zmax_list S with
+  | Some lo, Some hi =>
+      (forall v, ws_max st = Some v -> lo <= v <= hi) /\
+      (forall v, ws_min st = Some v -> lo <= v <= hi) /\
+      (forall v, ws_avg st = Some v -> lo - p < v < hi + p)
+  | _, _ => ws_avg st = None /\ ws_max st = None /\ ws_min st = None
+  end.
+Proof. exact kp_window_sound. Qed.
+Print Assumptions C15_K_latency_sound.
